@@ -50,6 +50,7 @@ struct vt_regs {            // offsets are used by the assembly below
   uint8_t xmm[16][16];                                   // 112
   double st0, st1;                                       // 368, 376
   uint64_t counter;                                      // 384  (spin threads)
+  uint64_t below_ptr;                                    // 392  stored in the word just below the waiting stack pointer
 };
 
 extern ElfW(Dyn) _DYNAMIC[];
@@ -68,6 +69,11 @@ __asm__(
     "3:\n"
     "  mov 72(%r11), %rsp\n"       // forced stack pointer (nothing below uses the stack)
     "4:\n"
+    "  cmpq $0, 104(%r11)\n"
+    "  jne 5f\n"
+    "  mov 392(%r11), %rax\n"
+    "  mov %rax, -8(%rsp)\n"       // a stale value below the stack pointer (red zone): must not count as a reference
+    "5:\n"
     "  movdqu 112(%r11), %xmm0\n  movdqu 128(%r11), %xmm1\n  movdqu 144(%r11), %xmm2\n  movdqu 160(%r11), %xmm3\n"
     "  movdqu 176(%r11), %xmm4\n  movdqu 192(%r11), %xmm5\n  movdqu 208(%r11), %xmm6\n  movdqu 224(%r11), %xmm7\n"
     "  movdqu 240(%r11), %xmm8\n  movdqu 256(%r11), %xmm9\n  movdqu 272(%r11), %xmm10\n movdqu 288(%r11), %xmm11\n"
@@ -352,6 +358,7 @@ int main(int argc, char **argv) {
     fill_regs(i);
     sh->regs[i].adj = adj;
     if (forced[i]) { sh->regs[i].sp_forced = 1; sh->regs[i].adj = forced_sp[i]; }
+    sh->regs[i].below_ptr = nregions > 0 ? regions[0].addr + 8 : 0;
     is_spin[i] = i > nblock;
   }
   for (int i = 1; i < nthreads_total; i++) {
